@@ -20,9 +20,15 @@ LEAN_TARGETS = ['CfVerif.Props.C20']
 PROPS_MODULES = ['CfVerif.Props.C20']
 DRIVER = 'Driver/C20.lean'
 REQUIRED_THEOREMS = []
-TRUSTED = []
-ASSUMPTIONS = []
-RULE = ''
+TRUSTED = ['harness/corr/c20.py extractor + correspondence (fakes of Crazyradio, CfUsb, sockets, CPX transports, serial ports)',
+           "CPython's urllib.parse / int() / str.format / re / binascii behave as the character-level models on ASCII input (checked by correspondence only)"]
+ASSUMPTIONS = ['non-ASCII URIs, netlocs with both [ and ], and %xx escapes >= 0x80 in the query are outside the model (reported as out-of-model, never defaulted)',
+               'USE_CFLINK=cpp (native cflinkcpp driver) is outside the model', 'what udp/tcp/prrt drivers do after accepting the scheme is an environment oracle',
+               'crazyradio.get_serials() succeeds (USB enumeration works)', 'open_link: callbacks registered by the application do not raise']
+RULE = ('cases = well-formed radio URIs built from (dongle index | serial in either case, channel, rate, 1..10 hex digits, trailing slash, query options with +/%xx) '
+        'with every prefix of the path fields; a malformed stream (character mutations, 11+ digit / non-hex addresses, bad rates and channels, missing fields, brackets, '
+        'other and unknown schemes); scan_interface / scan_selected scripts; regex guard texts x strings; int()/format glue; get_link_driver and open_link over '
+        'random class lists and fake worlds; non-trivial = distinct (operation, input)')
 
 RADIO = 'cflib/crtp/radiodriver.py'
 DRIVER_FILES = [('RadioDriver', RADIO, 'RadioDriver.parse_uri'), ('UsbDriver', 'cflib/crtp/usbdriver.py', 'UsbDriver.connect'),
@@ -105,6 +111,15 @@ def extract(ctx):
         lines.append('(%s, %s)' % (X.lstr(cls), _lean_pairs(guards)))
         # the connect method of every driver but the radio must contain its guards itself; RadioDriver.connect calls parse_uri first
     g.raw('def driverGuards : List (String × List (String × String)) := [\n  ' + ',\n  '.join(lines) + ']')
+    # SerialDriver: the second regex decides between "Invalid serial URI" and the device lookup
+    sm = _assign_map(X.find(X.parse('cflib/crtp/serialdriver.py'), 'SerialDriver.connect'))
+    X.expect('uri_data' in sm and len(sm['uri_data']) == 1 and isinstance(sm['uri_data'][0], ast.Call) and ast.unparse(sm['uri_data'][0].func) == 're.search',
+             'SerialDriver.connect: uri_data = re.search(...) not found')
+    g.string('serialUriRegex', _const_str(sm['uri_data'][0].args[0], 'serial uri regex'))
+    g.string('serialDeviceExpr', ast.unparse(sm['device_name'][0]) if 'device_name' in sm else '?')
+    um = _assign_map(X.find(X.parse('cflib/crtp/usbdriver.py'), 'UsbDriver.connect'))
+    X.expect('self.cfusb' in um, 'UsbDriver.connect: self.cfusb = CfUsb(...) not found')
+    g.string('usbOpenExpr', ast.unparse(um['self.cfusb'][0]))
     conn = X.find(rt, 'RadioDriver.connect')
     first = [st for st in conn.body if not (isinstance(st, ast.Expr) and isinstance(st.value, ast.Constant))][0]
     g.string('radioConnectFirst', ast.unparse(first))
@@ -315,3 +330,1002 @@ def extract(ctx):
     rets = [ast.unparse(n.value) for n in sorted((n for n in ast.walk(f2) if isinstance(n, ast.Return)), key=lambda n: n.lineno)]
     g.strings('helperAddressReturns', rets)
     return {'C20.lean': g.render()}
+
+
+# ------------------------------------------------------------------------------------------------------
+# real-code drivers (Tie B)
+def enc(s):
+    return '.'.join(str(ord(c)) for c in s) if s else '-'
+
+
+def dec(w):
+    return '' if w == '-' else ''.join(chr(int(x)) for x in w.split('.'))
+
+
+def encs(l):
+    return ';'.join(enc(s) for s in l) if l else '@'
+
+
+def err_name(e):
+    from cflib.crtp.exceptions import WrongUriType
+    if isinstance(e, WrongUriType):
+        return 'wrong_uri'
+    return exc_enum(e)
+
+
+def _quiet():
+    import logging
+    logging.disable(logging.CRITICAL)
+
+
+class patched:
+    """set attributes for the duration of a `with`, always restore"""
+
+    def __init__(self, *triples):
+        self.triples = triples
+        self.saved = []
+
+    def __enter__(self):
+        for obj, name, val in self.triples:
+            self.saved.append((obj, name, getattr(obj, name)))
+            setattr(obj, name, val)
+        return self
+
+    def __exit__(self, *a):
+        for obj, name, val in reversed(self.saved):
+            setattr(obj, name, val)
+
+
+def show_radio(t):
+    devid, channel, datarate, address, rate_limit = t
+    return '%d %d %d %s %s' % (devid, channel, datarate, ','.join(str(int(b)) for b in address), 'none' if rate_limit is None else str(rate_limit))
+
+
+def real_parse(serials, uri):
+    _quiet()
+    import cflib.drivers.crazyradio as cr
+    from cflib.crtp.radiodriver import RadioDriver
+    with patched((cr, 'get_serials', lambda: tuple(serials))):
+        try:
+            return 'ok ' + show_radio(RadioDriver.parse_uri(uri))
+        except Exception as e:
+            return 'err ' + err_name(e)
+
+
+class FakeScanRadio:
+    """stands for the _SharedRadioInstance during scan_interface / scan_selected"""
+    version = 0.53
+
+    def __init__(self, found=(), acks=()):
+        self.found = [tuple(f) for f in found]
+        self.acks = list(acks)
+        self.rate = None
+        self.address = None
+        self.passes = []     # data rate in force at each scan_channels call
+
+    def set_address(self, a):
+        self.address = tuple(a)
+
+    def set_arc(self, n):
+        pass
+
+    def set_data_rate(self, dr):
+        self.rate = dr
+
+    def set_channel(self, c):
+        pass
+
+    def scan_channels(self, start, stop, packet):
+        self.passes.append(self.rate)
+        return self.found.pop(0) if self.found else ()
+
+    def scan_selected(self, selected, packet):
+        return tuple(s for s, a in zip(selected, self.acks) if a)
+
+    def close(self):
+        pass
+
+
+def real_scan(address, found):
+    """-> (reply line for `scan`, address programmed into the radio or None)"""
+    _quiet()
+    import cflib.drivers.crazyradio as cr
+    from cflib.crtp.radiodriver import RadioDriver
+    d = RadioDriver()
+    fake = FakeScanRadio(found=found)
+    d._radio = fake
+    lens = [len(f) for f in found]
+    with patched((cr, 'get_serials', lambda: ('FAKE',))), contextlib.redirect_stdout(io.StringIO()):
+        try:
+            res = d.scan_interface(address)
+        except Exception as e:
+            return 'err ' + err_name(e), fake.address
+    uris = [r[0] for r in res]
+    out, i = [], 0
+    for k, rate in enumerate(fake.passes):
+        n = lens[k] if k < len(lens) else 0
+        out.append('%d:%s' % (rate, encs(uris[i:i + n])))
+        i += n
+    if i != len(uris) or any(r[1] != '' for r in res):
+        return 'ok MISMATCH ' + repr(res)[:200], fake.address
+    return 'ok ' + (' '.join(out) if out else '-'), fake.address
+
+
+def real_scansel(links, acks):
+    _quiet()
+    from cflib.crtp.radiodriver import RadioDriver
+    d = RadioDriver()
+    d._radio = FakeScanRadio(acks=acks)
+    try:
+        return 'ok ' + encs(list(d.scan_selected(links)))
+    except Exception as e:
+        return 'err ' + err_name(e)
+
+
+# ---- fakes at the USB / socket boundary -----------------------------------------------------------------
+class _Ack:
+    ack = True
+    powerDet = False
+    retry = 0
+    data = ()
+
+
+class Boundary:
+    """One fake outside world: which dongles / USB Crazyflies / serial ports exist, whether sockets connect,
+    whether traffic after the connect raises (setup) and whether closing raises."""
+
+    def __init__(self, serials=(), radios=(), usbs=(), devices=(), other_ok=True, setup_raises=False, close_raises=False):
+        import threading
+        self.serials, self.radios, self.usbs, self.devices = tuple(serials), set(radios), set(usbs), tuple(devices)
+        self.other_ok, self.setup_raises, self.close_raises = other_ok, setup_raises, close_raises
+        self.first_send = threading.Event()
+        self.radio_settings = None
+        b = self
+
+        class FakeCrazyradio:
+            def __init__(self, device=None, devid=0, serial=None):
+                if devid not in b.radios:
+                    raise Exception('Cannot find a Crazyradio Dongle')
+                self.version = 0.53
+                self.ch = self.addr = self.dr = None
+
+            def set_channel(self, c):
+                self.ch = c
+
+            def set_address(self, a):
+                if len(a) != 5:
+                    raise Exception('Crazyradio: the radio address shall be 5 bytes long')
+                self.addr = tuple(a)
+
+            def set_data_rate(self, d):
+                self.dr = d
+
+            def set_arc(self, n):
+                pass
+
+            def send_packet(self, data):
+                if b.radio_settings is None:
+                    b.radio_settings = (self.ch, self.dr, self.addr)
+                    b.first_send.set()
+                else:
+                    threading.Event().wait(0.002)     # throttle the polling thread (no synchronisation depends on it)
+                return _Ack()
+
+            def close(self):
+                raise SystemExit      # ends the (otherwise immortal) shared-radio thread of this case
+
+        class FakeCfUsb:
+            def __init__(self, device=None, devid=0):
+                self.dev = object() if devid in b.usbs else None
+                self.version = 0.0
+
+            def set_crtp_to_usb(self, on):
+                pass
+
+            def receive_packet(self):
+                threading.Event().wait(0.002)
+                return ()
+
+            def send_packet(self, data):
+                if b.setup_raises:
+                    raise Exception('usb write failed')
+
+            def close(self):
+                pass
+
+        class FakeSock:
+            def __init__(self, *a):
+                pass
+
+            def connect(self, addr):
+                if not b.other_ok:
+                    raise OSError('connect failed')
+
+            def recvfrom(self, n):
+                threading.Event().wait()          # nothing ever arrives (the reader is a daemon thread)
+
+            def sendto(self, data, addr):
+                if data == '\xFF\x01\x02\x02'.encode():
+                    if b.close_raises:
+                        raise OSError('close failed')
+                elif data != '\xFF\x01\x01\x01'.encode() and b.setup_raises:
+                    raise OSError('send failed')
+
+        class FakeTransport:
+            def __init__(self, *a):
+                if not b.other_ok:
+                    raise OSError('connect failed')
+
+        class FakeCPX:
+            def __init__(self, transport):
+                pass
+
+            def receivePacket(self, fn, timeout=None):
+                import queue
+                threading.Event().wait(0.002)
+                raise queue.Empty()
+
+            def sendPacket(self, p):
+                pass
+
+            def close(self):
+                pass
+        import cflib.drivers.crazyradio as _cr
+        for nm in dir(_cr.Crazyradio):
+            if nm.isupper():            # the configuration constants (DR_*, P_*) are the real ones
+                setattr(FakeCrazyradio, nm, getattr(_cr.Crazyradio, nm))
+        self.FakeCrazyradio, self.FakeCfUsb, self.FakeSock, self.FakeTransport, self.FakeCPX = FakeCrazyradio, FakeCfUsb, FakeSock, FakeTransport, FakeCPX
+
+    def patches(self):
+        import types
+        import cflib.drivers.crazyradio as cr
+        import cflib.crtp.radiodriver as rd
+        import cflib.crtp.usbdriver as ud
+        import cflib.crtp.udpdriver as udp
+        import cflib.crtp.tcpdriver as tcp
+        import cflib.crtp.serialdriver as ser
+        import socket as realsock
+        b = self
+        fsock = types.SimpleNamespace(socket=self.FakeSock, AF_INET=realsock.AF_INET, SOCK_DGRAM=realsock.SOCK_DGRAM)
+        rd.RadioManager._radios = []
+        return patched((cr, 'get_serials', lambda: b.serials), (rd, 'Crazyradio', self.FakeCrazyradio), (ud, 'CfUsb', self.FakeCfUsb),
+                       (udp, 'socket', fsock), (tcp, 'SocketTransport', self.FakeTransport), (tcp, 'CPX', self.FakeCPX),
+                       (ser, 'UARTTransport', self.FakeTransport), (ser, 'CPX', self.FakeCPX),
+                       (ser.SerialDriver, 'get_devices', lambda self_: {n: '/dev/' + n for n in b.devices}))
+
+
+# what happens after these drivers accepted the scheme (host/port parsing, sockets, the prrt module) is not modelled:
+# their result is compared up to 'this driver took the URI'
+UNMODELLED_TRANSPORT = ('UdpDriver', 'TcpDriver', 'PrrtDriver')
+
+
+def class_of(name):
+    import cflib.crtp as crtp
+    return getattr(crtp, name)
+
+
+def real_claims(uri):
+    """which driver classes do not answer WrongUriType (nothing exists in this world, so nothing connects)"""
+    _quiet()
+    b = Boundary(other_ok=False)
+    res = []
+    from cflib.crtp.exceptions import WrongUriType
+    with b.patches(), contextlib.redirect_stdout(io.StringIO()):
+        for cls, _, _ in DRIVER_FILES:
+            try:
+                class_of(cls)().connect(uri, None, None)
+                res.append(cls + '!')          # cannot happen: the world is empty
+            except WrongUriType:
+                pass
+            except Exception:
+                res.append(cls)
+    return 'ok ' + (','.join(res) if res else '-')
+
+
+def _close_quietly(link):
+    with contextlib.redirect_stdout(io.StringIO()):
+        try:
+            link.close()
+        except Exception:
+            pass
+
+
+def real_driver(cls_names, b, uri, canon=True):
+    """cflib.crtp.get_link_driver over CLASSES = cls_names in the world b"""
+    _quiet()
+    import cflib.crtp as crtp
+    classes = [class_of(n) for n in cls_names]
+    trace = []
+
+    def tracing(c, orig):
+        def connect(self_, *a):
+            trace.append(c.__name__)
+            return orig(self_, *a)
+        return connect
+    with b.patches(), patched((crtp, 'CLASSES', classes), *[(c, 'connect', tracing(c, c.connect)) for c in dict.fromkeys(classes)]), contextlib.redirect_stdout(io.StringIO()):
+        try:
+            link = crtp.get_link_driver(uri, None, None)
+        except Exception as e:
+            if canon and trace[-1] in UNMODELLED_TRANSPORT:
+                return 'took ' + trace[-1]
+            return 'raised ' + err_name(e)
+        if link is None:
+            return 'none'
+        name = type(link).__name__
+        if canon and name in UNMODELLED_TRANSPORT:
+            _close_quietly(link)
+            return 'took ' + name
+        out = 'ok ' + name
+        if name == 'RadioDriver':
+            if not b.first_send.wait(20):
+                out += ' NO-PACKET-SENT'
+            else:
+                ch, dr, addr = b.radio_settings
+                devid = [i for i, r in enumerate(__import__('cflib.crtp.radiodriver', fromlist=['x']).RadioManager._radios) if r is not None]
+                out += ' %d %d %d %s %s' % (devid[0] if len(devid) == 1 else -1, ch, dr, ','.join(map(str, addr)), 'none' if link.rate_limit is None else str(link.rate_limit))
+        _close_quietly(link)
+        return out
+
+
+class _PrevLink:
+    """a link left open by an earlier open_link"""
+    needs_resending = False
+
+    def __init__(self, b, ev):
+        self.b, self.ev = b, ev
+
+    def close(self):
+        self.ev.append('closed')
+        if self.b.close_raises:
+            raise OSError('close failed')
+
+    def send_packet(self, pk):
+        return True
+
+    def receive_packet(self, wait=0):
+        return None
+
+
+def real_open(cls_names, b, prev, uri):
+    """Crazyflie.open_link in the world b: the callbacks fired (and link.close() calls made) before open_link returns,
+    any escaping exception, cf.link afterwards"""
+    _quiet()
+    import cflib.crtp as crtp
+    from cflib.crazyflie import Crazyflie
+    ev = []
+    classes = [class_of(n) for n in cls_names]
+
+    def closing(orig):
+        def close(self_):
+            ev.append('closed')
+            if b.close_raises and type(self_).__name__ != 'UdpDriver':     # the fake UDP socket raises by itself
+                raise OSError('close failed')
+            return orig(self_)
+        return close
+    close_patches = [(c, 'close', closing(c.close)) for c in dict.fromkeys(classes)]
+    with b.patches(), patched((crtp, 'CLASSES', classes), *close_patches), contextlib.redirect_stdout(io.StringIO()):
+        cf = Crazyflie(rw_cache=None)
+        pl = None
+        if prev:
+            pl = _PrevLink(b, ev)
+            cf.link = pl
+        cf.connection_requested.add_callback(lambda u: ev.append('requested:' + enc(u)))
+        cf.connection_failed.add_callback(lambda u, m: ev.append(('failed-nodriver:' if m.startswith('No driver found or malformed URI') else
+                                                                  'failed-exception:' if m.startswith("Couldn't load link driver") else 'failed-other:') + enc(u)))
+        for nm in ('connection_lost', 'disconnected', 'connected', 'link_established', 'fully_connected', 'disconnected_link_error'):
+            getattr(cf, nm).add_callback(lambda *a, nm=nm: ev.append('unexpected-' + nm))
+        orig = cf._start_connection_setup
+        cf._start_connection_setup = lambda: (ev.append('setup'), orig())[1]
+        escaped = 'none'
+        try:
+            cf.open_link(uri)
+        except Exception as e:
+            escaped = err_name(e)
+        events = list(ev)
+        link = cf.link
+        after = 'none' if link is None else ('previous' if link is pl else type(link).__name__)
+        # cleanup (not observed)
+        for t in list(cf._answer_patterns.values()):
+            try:
+                t.cancel()
+            except Exception:
+                pass
+        cf._answer_patterns = {}
+        cf.link = None
+        if link is not None and link is not pl:
+            b.close_raises = False
+            _close_quietly(link)
+        return 'ok %s escaped=%s link=%s' % (','.join(events), escaped, after)
+
+
+def real_helper(envval):
+    import os
+    import contextlib as cl
+    import cflib.utils.uri_helper as uh
+    old = os.environ.get('CFLIB_URI')
+    try:
+        if envval is None:
+            os.environ.pop('CFLIB_URI', None)
+        else:
+            os.environ['CFLIB_URI'] = envval
+        with cl.redirect_stderr(io.StringIO()):
+            u = uh.uri_from_env()
+            a = uh.address_from_env()
+        return 'ok %s %s' % (enc(u), 'none' if a is None else str(a))
+    except Exception as e:
+        return 'err ' + err_name(e)
+    finally:
+        if old is None:
+            os.environ.pop('CFLIB_URI', None)
+        else:
+            os.environ['CFLIB_URI'] = old
+
+
+# ------------------------------------------------------------------------------------------------------
+# generators
+RATES = ['250K', '1M', '2M']
+HEX = '0123456789abcdefABCDEF'
+SERIAL_POOL = ['E7E7E7E7E7', 'ABCDEF0123', '0123456789', '1234567890AB', 'DEADBEEF01', '9999999999', 'A', '']
+NOISE = list('/?#&=%+_- \t\n\r\x0b[]:@.xX0129aAfFgGzKM;') + ['٣', 'é', '\x00', '\x1c', '℀']
+ALL_CLASSES = [c for c, _, _ in DRIVER_FILES]
+BASE_LISTS = [['RadioDriver', 'UsbDriver', 'UdpDriver', 'PrrtDriver', 'TcpDriver'],
+              ['RadioDriver', 'UsbDriver', 'SerialDriver', 'UdpDriver', 'PrrtDriver', 'TcpDriver']]
+
+
+def g_dongle(rng, serials):
+    r = rng.random()
+    if r < 0.55:
+        return str(rng.choice([0, 0, 1, 2, 3, 9, 10, 99, rng.randrange(10 ** 9), 999999999]))
+    if r < 0.65:
+        return '0' * rng.randrange(1, 6) + str(rng.randrange(1000))          # leading zeros, still < 10 characters
+    if r < 0.9 and serials:
+        s = rng.choice(serials)
+        return ''.join(rng.choice([c.lower(), c.upper()]) for c in s)
+    return rng.choice(['0123456789', '1234567890', 'FFFFFFFFFF', 'e7e7e7e7e8', '00000000000'])
+
+
+def g_addr(rng):
+    n = rng.choice([1, 2, 3, 5, 9, 10, 10, 10, rng.randrange(1, 11)])
+    return ''.join(rng.choice(HEX) for _ in range(n))
+
+
+def g_query(rng):
+    """-> query text (without '?') with a rate_limit most of the time"""
+    parts = []
+    for _ in range(rng.choice([0, 0, 1, 2])):
+        parts.append(rng.choice(['a=b', 'x=1', 'foo=bar+baz', 'safelink=0', 'k', 'k=', '=v', 'rate_limi=3', 'RATE_LIMIT=9', 'a%20b=c']))
+    if rng.random() < 0.8:
+        v = str(rng.choice([0, 1, 50, 100, 1000, rng.randrange(10 ** 6)]))
+        k = 'rate_limit'
+        if rng.random() < 0.15:
+            k = rng.choice(['rate%5Flimit', 'rate%5flimit', '%72ate_limit'])
+        if rng.random() < 0.1:
+            v = ''.join('%%%02X' % ord(c) for c in v)
+        if rng.random() < 0.08:
+            v = rng.choice(['+', '%20', '']) + v + rng.choice(['+', '%0A', ''])
+        parts.insert(rng.randrange(len(parts) + 1), k + '=' + v)
+        if rng.random() < 0.15:
+            parts.append('rate_limit=' + str(rng.randrange(100)))
+    return '&'.join(parts)
+
+
+def g_wellformed(rng, serials):
+    """-> (uri, fields) with fields = number of path fields present (0..3)"""
+    nf = rng.choice([0, 1, 2, 3, 3, 3, 3])
+    uri = 'radio://' + g_dongle(rng, serials)
+    segs = []
+    if nf > 0:
+        segs.append(str(rng.choice([0, 1, 2, 80, 100, 125, rng.randrange(126)])))
+    if nf > 1:
+        segs.append(rng.choice(RATES))
+    if nf > 2:
+        segs.append(g_addr(rng))
+    if segs:
+        uri += '/' + '/'.join(segs)
+    if rng.random() < 0.2:
+        uri += '/'
+    if rng.random() < 0.4:
+        uri += '?' + g_query(rng)
+    if rng.random() < 0.05:
+        uri += '#' + rng.choice(['', 'frag', 'a/b?c=d'])
+    return uri, nf
+
+
+def g_mutate(rng, uri):
+    s = list(uri)
+    for _ in range(rng.choice([1, 1, 1, 2, 3])):
+        op = rng.random()
+        pos = rng.randrange(len(s) + 1)
+        if op < 0.4 and s:
+            del s[min(pos, len(s) - 1)]
+        elif op < 0.8:
+            s.insert(pos, rng.choice(NOISE))
+        elif s:
+            s[min(pos, len(s) - 1)] = rng.choice(NOISE)
+    return ''.join(s)
+
+
+def g_malformed(rng, serials):
+    r = rng.random()
+    base, _ = g_wellformed(rng, serials)
+    if r < 0.4:
+        return g_mutate(rng, base)
+    if r < 0.55:     # addresses that are too long / not hex
+        a = ''.join(rng.choice(HEX) for _ in range(rng.choice([11, 12, 13, 14, 20]))) if rng.random() < 0.7 else rng.choice(['zz', 'E7E7E7E7G7', '0x12', 'e7 e7', '-1', '+1', ''])
+        return 'radio://%s/%d/%s/%s' % (g_dongle(rng, serials), rng.randrange(126), rng.choice(RATES), a)
+    if r < 0.65:     # bad rates
+        return 'radio://0/%d/%s/%s' % (rng.randrange(126), rng.choice(['2m', '3M', '250k', '250', 'M', '1M ', ' 2M', '']), g_addr(rng))
+    if r < 0.75:     # bad / exotic channels
+        c = rng.choice(['', ' 80', '80 ', '+80', '-1', '8_0', '8__0', '_80', '80_', '0x50', '1e2', '80.0', 'ch', '\x0b80\x0c', '1' * 4300, '1' * 4301, '0' * 4301, '١'])
+        return 'radio://0/%s/2M' % c
+    if r < 0.85:     # missing fields / empty segments
+        return rng.choice(['radio://', 'radio:///', 'radio:///80/2M', 'radio://0//2M', 'radio://0/80//E7', 'radio://0///', 'radio://?rate_limit=1', 'radio://#x',
+                           'radio://0/80/2M/', 'radio://0/80/2M//', 'radio://0//', 'radio://0/80/2M/E7E7E7E7E7/extra', 'radio://0?rate_limit=x', 'radio://0/1?rate_limit=',
+                           'radio://0/1?rate_limit=1_0', 'radio://0/1?rate_limit=%C2%B2', 'radio://0/1?%ff=1', 'radio://[0/1', 'radio://0]/1', 'radio://[::1]/1', 'radio://[v1.x]/1', 'radio://[zz]/1',
+                           'radio://0:80/1', 'radio://user@0/1', 'radio://0/1;p=1/2M', 'radio://0/1%20/2M'])
+    return g_other_scheme(rng)
+
+
+def g_other_scheme(rng):
+    n = str(rng.choice([0, 1, 2, 10, 123456]))
+    host = rng.choice(['127.0.0.1', '192.168.4.1', 'localhost', 'aideck.local'])
+    port = str(rng.choice([5000, 7777, 1, 65535]))
+    return rng.choice([
+        'usb://' + n, 'usb://' + n + '\n', 'usb://' + n + '\n\n', 'usb://', 'usb://a', 'usb://' + n + '/', 'usb://' + n + ' ', 'usb://-1', 'usb://٣', 'USB://0', 'xusb://0', ' usb://0',
+        'udp://' + host + ':' + port, 'udp://', 'udp:/' + host, 'tcp://' + host + ':' + port, 'tcp://' + host + ':' + port + ' extra', 'tcp://', 'tcp:' + host,
+        'serial://ttyUSB0', 'serial://cu.usbmodem-14', 'serial://COM3', 'serial://tty USB', 'serial://', 'serial://dev/ttyS0\n', 'serial://ttyACM0?x',
+        'prrt://10.0.0.1:5000', 'prrt://10.0.0.1:5000/200', 'prrt://host:1', 'prrt://',
+        'radio://0/80/2M', 'Radio://0/80', 'RADIO://0/80/2M', 'radio:/0/80', 'radio//0', ' radio://0/80', 'xradio://0/80', 'radio:', '', 'foo://bar', 'http://example.com/', 'debug://0/0',
+        'bogus', 'usbx://0', 'udpx://h:1', 'tcp//h', 'serial:/x', 'radio://0/80\nusb://0', 'usb://0\nradio://0/80', 'tcp://h:1\nudp://h:1'])
+
+
+def g_regex(rng):
+    """a pattern in (and sometimes just outside) the supported shape, and strings to try"""
+    lits = 'abcxyzUSB019:/-_ ,'
+    cls_chars = 'abcdxyzABZ0189/.:_'
+
+    def g_class():
+        parts = []
+        if rng.random() < 0.2:
+            parts.append('-')
+        for _ in range(rng.randrange(1, 4)):
+            if rng.random() < 0.5:
+                lo, hi = sorted(rng.sample('abcdefxyz', 2)) if rng.random() < 0.5 else sorted(rng.sample('0123456789', 2))
+                parts.append(lo + '-' + hi)
+            else:
+                parts.append(rng.choice(cls_chars))
+        if rng.random() < 0.1:
+            parts.append('-')
+        return '[' + ''.join(parts) + ']'
+    pat, sample = '^', ''
+    for _ in range(rng.randrange(0, 7)):
+        r = rng.random()
+        if r < 0.55:
+            c = rng.choice(lits)
+            pat += c
+            sample += c
+        else:
+            import re as _re
+            k = g_class()
+            members = [ch for ch in (lits + cls_chars + 'efgh234567') if _re.fullmatch(k, ch)]
+            m = rng.choice(members) if members else 'a'
+            form = rng.random()
+            if form < 0.3:
+                pat += k
+                sample += m
+            elif form < 0.65:
+                pat += k + '+'
+                sample += ''.join(rng.choice(members) for _ in range(rng.randrange(1, 4)))
+            else:
+                pat += '(' + k + '+)'
+                sample += ''.join(rng.choice(members) for _ in range(rng.randrange(1, 4)))
+    if rng.random() < 0.5:
+        pat += '$'
+        if rng.random() < 0.08:
+            pat += rng.choice(['\n', 'a'])
+    if rng.random() < 0.06:
+        pat = rng.choice([pat[1:], pat + '*', pat + '(a|b)', pat.replace('+', '*'), pat + '\\d', pat + '.'])
+    strs = [sample, sample + '\n', sample + '\n\n', sample + 'x', sample[:-1], 'x' + sample, sample + rng.choice(lits), g_mutate(rng, sample) if sample else 'q']
+    return pat, strs
+
+
+def g_world(rng, serials):
+    return dict(serials=serials, radios=sorted(rng.sample(range(4), rng.choice([0, 1, 2, 4]))), usbs=sorted(rng.sample(range(3), rng.choice([0, 1, 3]))),
+                devices=rng.choice([[], ['ttyUSB0'], ['ttyUSB0', 'COM3', 'cu.usbmodem-14', 'dev/ttyS0']]), other_ok=rng.random() < 0.8)
+
+
+def world_words(w):
+    return '%s %s %s %s %d' % (encs(w['serials']), ','.join(map(str, w['radios'])) or '-', ','.join(map(str, w['usbs'])) or '-', encs(w['devices']), 1 if w['other_ok'] else 0)
+
+
+def norm_link(s):
+    """udp / tcp / prrt / serial beyond the device lookup are compared only up to 'this driver took the URI'"""
+    return s
+
+
+def g_connect_uri(rng, w):
+    """URIs for the driver / open_link correspondences: small dongle indices so that the radio manager's list stays small"""
+    r = rng.random()
+    if r < 0.45:
+        dong = str(rng.randrange(5)) if rng.random() < 0.7 or not w['serials'] else rng.choice(w['serials']).lower()
+        segs = [str(rng.randrange(126)), rng.choice(RATES), g_addr(rng)][:rng.choice([0, 1, 2, 3, 3])]
+        u = 'radio://' + dong + ('/' + '/'.join(segs) if segs else '') + rng.choice(['', '', '/', '?rate_limit=%d' % rng.randrange(1, 500)])
+        if rng.random() < 0.25:
+            u = g_mutate(rng, u)
+            if not u.startswith('radio://') or not u[8:9].isdigit() or u[8:18].isdigit():
+                pass
+        return u
+    if r < 0.6:
+        return 'usb://' + rng.choice(['0', '1', '2', '3', '00', '1\n', 'x', ''])
+    if r < 0.7 and w['devices']:
+        return 'serial://' + rng.choice(list(w['devices']) + ['nope', 'tty USB'])
+    return g_other_scheme(rng)
+
+
+def safe_for_connect(uri):
+    """the real RadioManager allocates a list as long as the dongle index: keep indices small in connect-level cases"""
+    if not uri.startswith('radio://'):
+        return True
+    net = uri[8:].replace('\t', '').replace('\r', '').replace('\n', '')
+    for d in '/?#':
+        net = net.split(d)[0]
+    return not (net.isdigit() and len(net) < 10 and int(net) > 50)
+
+
+def gen_cases(ctx):
+    import re
+    rng = ctx.rng
+    T = ctx.tier == 'thorough'
+    cases = []      # (kind, lean line, real thunk, description, non-trivial key)
+
+    def add(kind, line, thunk, desc, key):
+        cases.append((kind, line, thunk, desc, key))
+
+    def parse_case(serials, uri, tag):
+        add('parse', 'parse %s %s' % (encs(serials), enc(uri)), lambda: real_parse(serials, uri), {'op': 'parse', 'serials': serials, 'uri': uri, 'stream': tag}, ('parse', tuple(serials), uri))
+    # ---- corpus-like fixed cases ---------------------------------------------------------------------------
+    for u in ['radio://0', 'radio://0/', 'radio://0/80', 'radio://0/80/', 'radio://0/80/2M', 'radio://0/80/2M/', 'radio://0/80/250K/E7E7E7E7E7', 'radio://0/80/1M/1',
+              'radio://0?rate_limit=100', 'radio://0/?rate_limit=100', 'radio://e7e7e7e7e7/10/1M/abcdef', 'radio://0123456789/1', 'radio://999999999/125/2M/FFFFFFFFFF?rate_limit=0']:
+        parse_case(['E7E7E7E7E7', '0123456789'], u, 'fixed')
+    # ---- parse_uri: well-formed and malformed streams -----------------------------------------------------------
+    for i in range(6000 if T else 1200):
+        serials = rng.sample(SERIAL_POOL, rng.choice([0, 1, 2, 4]))
+        u, _ = g_wellformed(rng, serials)
+        parse_case(serials, u, 'wellformed')
+    for i in range(6000 if T else 1200):
+        serials = rng.sample(SERIAL_POOL, rng.choice([0, 1, 2, 4]))
+        parse_case(serials, g_malformed(rng, serials), 'malformed')
+    # exhaustive small space: every (fields present, trailing slash, query) shape x every address length
+    for nf in range(4):
+        for slash in ('', '/'):
+            for q in ('', '?rate_limit=7', '?x=1'):
+                for alen in (range(1, 14) if nf == 3 else [0]):
+                    segs = ['80', '1M', ''.join(rng.choice(HEX) for _ in range(alen))][:nf]
+                    parse_case([], 'radio://1' + ''.join('/' + s for s in segs) + slash + q, 'shapes')
+    # ---- scan_interface / scan_selected --------------------------------------------------------------------------
+    for i in range(400 if T else 120):
+        r = rng.random()
+        address = None if r < 0.2 else 0xE7E7E7E7E7 if r < 0.3 else rng.choice([0, 1, 0xE7E7E7E701, 2 ** 40 - 1, rng.randrange(2 ** 40), rng.randrange(2 ** 16)]) if r < 0.9 \
+            else rng.choice([2 ** 40, 2 ** 44, 2 ** 48 - 1, -1, -5])
+        found = [sorted(rng.sample(range(126), rng.choice([0, 0, 1, 2, 5]))) for _ in range(3)]
+        line = 'scan %s %s' % ('none' if address is None else str(address), ';'.join(','.join(map(str, f)) or '-' for f in found))
+        add('scan', line, lambda a=address, f=found: real_scan(a, f)[0], {'op': 'scan_interface', 'address': address, 'found': found}, ('scan', address, repr(found)))
+        if address is not None:
+            def thunk(a=address):
+                res, got = real_scan(a, [[], [], []])
+                return res if res.startswith('err') else 'ok ' + ','.join(map(str, got))
+            add('scanaddr', 'scanaddr %d' % address, thunk, {'op': 'scan_interface address', 'address': address}, ('scanaddr', address))
+    for i in range(300 if T else 100):
+        links = []
+        for _ in range(rng.randrange(0, 5)):
+            r = rng.random()
+            if r < 0.6:
+                links.append('radio://%d/%d/%s' % (rng.randrange(3), rng.randrange(126), rng.choice(RATES)))
+            elif r < 0.8:
+                links.append(rng.choice(['radio://0/80', 'radio://0', 'radio://0/80/2M/E7E7E7E7E7', 'radio://0/80/3M', 'radio://0/80/250', 'radio://0/80/1M2', 'radio://00/080/2M', 'radio://0/', 'usb://0', 'radio://x/1/2M',
+                                         'radio://0/1' + '0' * 4300]))
+            else:
+                links.append(g_mutate(rng, 'radio://0/%d/%s' % (rng.randrange(126), rng.choice(RATES))))
+        acks = [rng.random() < 0.6 for _ in links]
+        add('scansel', 'scansel %s %s' % (encs(links), ''.join('1' if a else '0' for a in acks) or '-'), lambda l=links, a=acks: real_scansel(l, a),
+            {'op': 'scan_selected', 'links': links, 'acks': acks}, ('scansel', tuple(links), tuple(acks)))
+    # ---- scheme guards -------------------------------------------------------------------------------------------
+    seen = set()
+    for i in range(1500 if T else 400):
+        u = g_other_scheme(rng) if rng.random() < 0.6 else g_mutate(rng, g_other_scheme(rng))
+        if u in seen:
+            continue
+        seen.add(u)
+        add('claims', 'claims ' + enc(u), lambda u=u: real_claims(u), {'op': 'claims', 'uri': u}, ('claims', u))
+    import warnings
+    for i in range(1500 if T else 400):
+        pat, strs = g_regex(rng)
+        for s in strs:
+            def thunk(p=pat, s=s):
+                with warnings.catch_warnings():
+                    warnings.simplefilter('ignore')
+                    return 'ok %d' % (1 if re.search(p, s) else 0)
+            add('rematch', 'rematch %s %s' % (enc(pat), enc(s)), thunk, {'op': 're.search', 'pattern': pat, 'string': s}, ('rematch', pat, s))
+    # ---- glue: int(), int(,16), str.format ------------------------------------------------------------------------
+    ints = ['5', ' 5 ', '+5', '-5', '+ 5', '1_0', '1__0', '_1', '1_', '007', '', ' ', '\x0b5\x0c', '\x1c5', '5\x00', '0x10', '1' * 4300, '1' * 4301, '0' * 4301, '1_' * 4300 + '1', '-' + '1' * 4300,
+            '+' + '1' * 4301, '--1', '+-1', '1 2', '\t12\n', '12a', 'a', '-', '+', '_', '1_2_3', '0_0', '-0', '00', ' +7_7 ']
+    for s in ints + [g_mutate(rng, str(rng.randrange(10 ** rng.randrange(1, 8)))) for _ in range(300 if T else 80)]:
+        if all(ord(c) < 128 for c in s):
+            add('int', 'int ' + enc(s), lambda s=s: _real_int(s, None), {'op': 'int', 's': s[:40]}, ('int', s))
+    hexs_ = ['ff', '0xff', '0XFf', '0x_ff', '_ff', 'f_f', ' ff ', '+0xff', '-ff', '0x', 'x1', '0b1', '0o7', '0', '00x1', '0x0x1', '0x-1', '-0x1', '0x__1', 'g', 'E7E7E7E7E7', 'e7?rate_limit=1', '', '0_x1', '0x1_', '0X', '0x_', '_0x1']
+    for s in hexs_ + [g_mutate(rng, rng.choice(['0x', '']) + '%x' % rng.randrange(16 ** rng.randrange(1, 11))) for _ in range(300 if T else 80)]:
+        if all(ord(c) < 128 for c in s):
+            add('inthex', 'inthex ' + enc(s), lambda s=s: _real_int(s, 16), {'op': 'int16', 's': s[:40]}, ('inthex', s))
+    fmts = ['{}', '{:X}', '{:x}', '{:d}', '{:s}', '{:0>10}', '{:0>10X}', '{:*<7}', '{:>5X}', '{:3}', '{:<3}', '{:>>4}', '{:<<4}', 'radio://0/{}/250K', 'radio://0/{}/2M/{:X}', 'a{}b{}c', '{:05}', '{:^5}', '{0}', '{', '}', '{{}}', '{:10s}', '{:2x}',
+            '{:q}', '{:}', '{:0>1}']
+    for f in fmts:
+        for _ in range(6 if T else 3):
+            args = []
+            for _k in range(2):
+                args.append(rng.choice([0, 1, 255, -1, -255, 0xE7E7E7E7E7, rng.randrange(2 ** 40), 10 ** 12]) if rng.random() < 0.6 else rng.choice(['', 'E7', 'abc', '0123456789ab', 'x y']))
+            words = ' '.join(('i%d' % a) if isinstance(a, int) else 's' + enc(a) for a in args)
+            add('format', 'format %s %s' % (enc(f), words), lambda f=f, a=tuple(args): _real_format(f, a), {'op': 'format', 'fmt': f, 'args': list(args)}, ('format', f, tuple(args)))
+    # ---- init_drivers -----------------------------------------------------------------------------------------------------
+    for serial in (0, 1):
+        add('initdrivers', 'initdrivers %d' % serial, lambda s=serial: _real_init(bool(s)), {'op': 'init_drivers', 'serial': serial}, ('init', serial))
+    # ---- get_link_driver --------------------------------------------------------------------------------------------------
+    for i in range(1200 if T else 260):
+        serials = rng.sample(SERIAL_POOL[:6], rng.choice([0, 1, 2]))
+        w = g_world(rng, serials)
+        u = g_connect_uri(rng, w)
+        if not safe_for_connect(u):
+            continue
+        r = rng.random()
+        cls = list(rng.choice(BASE_LISTS)) if r < 0.5 else rng.sample(ALL_CLASSES, rng.randrange(0, 7)) if r < 0.9 else [rng.choice(ALL_CLASSES) for _ in range(rng.randrange(1, 8))]
+        line = 'driver %s %s %s' % (','.join(cls) or '@', world_words(w), enc(u))
+        add('driver', line, lambda c=cls, w=w, u=u: real_driver(c, Boundary(**w), u), {'op': 'get_link_driver', 'classes': cls, 'world': w, 'uri': u}, ('driver', tuple(cls), repr(w), u))
+    # ---- open_link ----------------------------------------------------------------------------------------------------------
+    for i in range(500 if T else 130):
+        serials = rng.sample(SERIAL_POOL[:6], rng.choice([0, 1]))
+        w = g_world(rng, serials)
+        r = rng.random()
+        u = g_connect_uri(rng, w) if r < 0.5 else g_malformed(rng, serials) if r < 0.8 else g_other_scheme(rng)
+        if not safe_for_connect(u):
+            continue
+        if u.startswith(('tcp://', 'udp://')) and not re.fullmatch(r'(tcp|udp)://[A-Za-z0-9.]+:[0-9]{1,5}', u):
+            continue      # host/port parsing of these drivers is not modelled: only plain host:port URIs at this level
+        cls = list(rng.choice(BASE_LISTS)) if rng.random() < 0.7 else rng.sample(ALL_CLASSES, rng.randrange(0, 7))
+        prev = rng.random() < 0.25
+        setup_raises = rng.random() < 0.3 and (u.startswith('usb://') or u.startswith('udp://'))
+        close_raises = rng.random() < 0.3
+        line = 'open %s %s %d %d %d %s' % (','.join(cls) or '@', world_words(w), prev, setup_raises, close_raises, enc(u))
+        add('open', line, lambda c=cls, w=w, p=prev, sr=setup_raises, cr=close_raises, u=u: real_open(c, Boundary(setup_raises=sr, close_raises=cr, **w), p, u),
+            {'op': 'open_link', 'classes': cls, 'world': w, 'prev': prev, 'setup_raises': setup_raises, 'close_raises': close_raises, 'uri': u}, ('open', tuple(cls), repr(w), prev, setup_raises, close_raises, u))
+    # ---- uri_helper ---------------------------------------------------------------------------------------------------------
+    add('helper', 'helper none', lambda: real_helper(None), {'op': 'uri_helper', 'env': None}, ('helper', None))
+    for i in range(200 if T else 60):
+        u, _ = g_wellformed(rng, [])
+        if rng.random() < 0.3:
+            u = g_mutate(rng, u)
+        if '\x00' in u or not all(ord(c) < 128 for c in u) or not u:
+            continue
+        add('helper', 'helper ' + enc(u), lambda u=u: real_helper(u), {'op': 'uri_helper', 'env': u}, ('helper', u))
+    return cases
+
+
+def _real_int(s, base):
+    try:
+        return 'ok %d' % (int(s) if base is None else int(s, base))
+    except Exception as e:
+        return 'err ' + exc_enum(e)
+
+
+def _real_format(f, args):
+    try:
+        return 'ok ' + enc(f.format(*args))
+    except ValueError:
+        return 'err value_error'
+    except Exception as e:
+        return 'err ' + exc_enum(e)
+
+
+def _real_init(serial):
+    import os
+    import cflib.crtp as crtp
+    _quiet()
+    old = os.environ.pop('USE_CFLINK', None)
+    try:
+        with patched((crtp, 'CLASSES', [])):
+            crtp.init_drivers(enable_serial_driver=serial)
+            return 'ok ' + ','.join(c.__name__ for c in crtp.CLASSES)
+    finally:
+        if old is not None:
+            os.environ['USE_CFLINK'] = old
+
+
+# kinds whose real result is only compared up to "this driver took the URI" for the drivers whose transport is not modelled
+def canon_driver(model, real):
+    for s in ('UdpDriver', 'TcpDriver', 'PrrtDriver'):
+        pass
+    return model, real
+
+
+def correspond(ctx):
+    import sys
+    sys.setrecursionlimit(10000)
+    cases = gen_cases(ctx)
+    replies = ctx.lean(DRIVER, [c[1] for c in cases])
+    for (kind, line, thunk, desc, key), model in zip(cases, replies):
+        if model == 'out-of-model' or model == 'unsupported':
+            # the model makes no prediction (non-ASCII input, IP-literal netloc, %xx >= 0x80; regex / format outside the supported shape)
+            ctx.count('skipped:' + kind + ':' + model)
+            if model == 'unsupported' and kind in ('rematch', 'format'):
+                continue
+            if model == 'out-of-model':
+                continue
+        real = thunk()
+        ctx.count('op:' + kind)
+        head = real.split(' ')
+        ctx.count('result:%s:%s' % (kind, head[0] + (':' + head[1] if head[0] in ('err', 'raised') and len(head) > 1 else '')))
+        ctx.case(desc, key)
+        if real != model:
+            ctx.disagree(kind, json_safe(desc), model[:300], real[:300])
+
+
+def json_safe(d):
+    return {k: (v if len(repr(v)) < 300 else repr(v)[:300]) for k, v in d.items()} if isinstance(d, dict) else str(d)[:300]
+
+
+# ------------------------------------------------------------------------------------------------------
+# failing-input search: the property itself, evaluated on the real code (no Lean needed)
+DR = {'250K': 0, '1M': 1, '2M': 2}
+
+
+def spec_addr(hexdigits):
+    """the 5 address bytes a radio URI names: the hex number, zero-padded on the left, most significant byte first"""
+    return tuple(int(hexdigits, 16).to_bytes(5, 'big'))
+
+
+def search(ctx):
+    rng = ctx.rng
+    T = ctx.tier == 'thorough'
+    _quiet()
+    from cflib.crtp.radiodriver import RadioDriver
+    import cflib.crtp as crtp
+
+    def parsed(serials, uri):
+        r = real_parse(serials, uri)
+        return r
+
+    def expect_parse(key, what, serials, uri, want):
+        got = parsed(serials, uri)
+        w = 'ok ' + show_radio(want)
+        if got != w:
+            ctx.witness(key, what, {'uri': uri, 'serials': list(serials)}, got=got, want=w)
+            return False
+        return True
+    # (0) D16: omitted channel
+    for u in ('radio://0', 'radio://0/', 'radio://3?rate_limit=10'):
+        lim = 10 if 'rate_limit' in u else None
+        expect_parse('D16-omitted-channel', 'radio URI without a channel does not default to channel 2 / 2M / E7E7E7E7E7', [], u,
+                     (int(u[8]), 2, 2, (0xe7,) * 5, lim))
+    # (1) every well-formed URI parses to what it names
+    serial_sets = [[], ['E7E7E7E7E7'], ['ABCDEF0123', 'E7E7E7E7E7', '0123456789']]
+    n = 0
+    for ch in list(range(126)) if T else [0, 1, 2, 9, 10, 80, 99, 100, 125] + [rng.randrange(126) for _ in range(12)]:
+        for rate in RATES:
+            for alen in range(1, 11):
+                serials = rng.choice(serial_sets)
+                if serials and rng.random() < 0.4:
+                    sn = rng.choice(serials)
+                    dong, devid = ''.join(rng.choice([c.lower(), c.upper()]) for c in sn), serials.index(sn)
+                else:
+                    devid = rng.choice([0, 1, 7, 10, 123, 999999999, rng.randrange(10 ** 9)])
+                    dong = str(devid)
+                a = ''.join(rng.choice(HEX) for _ in range(alen))
+                lim = rng.choice([None, None, 0, 1, 100, rng.randrange(10 ** 5)])
+                uri = 'radio://%s/%d/%s/%s' % (dong, ch, rate, a)
+                if lim is not None:
+                    uri += rng.choice(['?rate_limit=%d', '?x=1&rate_limit=%d', '?rate_limit=%d&y=2', '?rate_limit=%d&rate_limit=77']) % lim
+                n += 1
+                if not expect_parse('parse-wellformed', 'well-formed radio URI does not parse to the dongle, channel, rate, address (MSB first) and rate limit it names', serials, uri,
+                                    (devid, ch, DR[rate], spec_addr(a), lim)):
+                    break
+    # (2) omitted trailing fields default
+    for dong in ('0', '5', '12'):
+        for ch in (0, 2, 80, 125):
+            for slash in ('', '/'):
+                for q, lim in (('', None), ('?rate_limit=9', 9)):
+                    expect_parse('defaults', 'omitted trailing fields do not default to 2M / E7E7E7E7E7', [], 'radio://%s/%d%s%s' % (dong, ch, slash, q), (int(dong), ch, 2, (0xe7,) * 5, lim))
+                    for rate in RATES:
+                        expect_parse('defaults', 'omitted address does not default to E7E7E7E7E7', [], 'radio://%s/%d/%s%s%s' % (dong, ch, rate, slash, q), (int(dong), ch, DR[rate], (0xe7,) * 5, lim))
+    # (3) scan results parse back to the scanned channel, rate and address
+    for trial in range(60 if T else 15):
+        address = rng.choice([None, 0xE7E7E7E7E7, 0, 1, 0xE7E7E7E701, 2 ** 40 - 1, rng.randrange(2 ** 40), rng.randrange(2 ** 20)])
+        found = [sorted(rng.sample(range(126), rng.choice([1, 2, 6]))) for _ in range(3)]
+        res, progged = real_scan(address, found)
+        if not res.startswith('ok ') or 'MISMATCH' in res:
+            ctx.witness('scan-format', 'scan_interface failed for a valid address', {'address': address, 'found': found}, got=res)
+            continue
+        want_addr = (0xe7,) * 5 if address is None else spec_addr('%X' % address)
+        if address is not None and progged != want_addr:
+            ctx.witness('scan-address', 'scan_interface programs a different address than asked', {'address': address}, got=str(progged), want=str(want_addr))
+        passes = res[3:].split(' ')
+        seen_rates = []
+        for k, p in enumerate(passes):
+            rate, uris = p.split(':', 1)
+            seen_rates.append(int(rate))
+            uris = [] if uris == '@' else [dec(x) for x in uris.split(';')]
+            if len(uris) != len(found[k]):
+                ctx.witness('scan-count', 'scan_interface reports a different number of URIs than channels found', {'address': address, 'found': found}, got=res[:200])
+                continue
+            for c, u in zip(found[k], uris):
+                expect_parse('scan-parse-back', 'URI reported by scanning does not parse back to the scanned channel, rate and address', [], u, (0, c, int(rate), want_addr, None))
+        if sorted(seen_rates) != [0, 1, 2]:
+            ctx.witness('scan-rates', 'scan_interface does not scan each data rate once', {'address': address}, got=str(seen_rates))
+    for trial in range(40 if T else 12):
+        ents = [(rng.randrange(126), rng.choice(RATES)) for _ in range(rng.randrange(1, 6))]
+        acks = [rng.random() < 0.7 for _ in ents]
+        res = real_scansel(['radio://0/%d/%s' % e for e in ents], acks)
+        want = [e for e, a in zip(ents, acks) if a]
+        uris = [] if res in ('ok @',) else [dec(x) for x in res[3:].split(';')] if res.startswith('ok ') else None
+        if uris is None or len(uris) != len(want):
+            ctx.witness('scansel', 'scan_selected does not report the acknowledged links', {'links': ents, 'acks': acks}, got=res[:200])
+            continue
+        for (c, r), u in zip(want, uris):
+            expect_parse('scansel-parse-back', 'URI reported by scan_selected does not parse back to the scanned channel and rate', [], u, (0, c, DR[r], (0xe7,) * 5, None))
+    # (4) each scheme is claimed by exactly one driver; unknown schemes by none; get_link_driver picks that driver from any list
+    samples = {'RadioDriver': ['radio://0/80/2M', 'radio://0/80/2M/E7E7E7E7E7', 'radio://0'], 'UsbDriver': ['usb://0', 'usb://1'], 'SerialDriver': ['serial://ttyUSB0'],
+               'UdpDriver': ['udp://127.0.0.1:7777'], 'PrrtDriver': ['prrt://10.0.0.1:5000'], 'TcpDriver': ['tcp://192.168.4.1:5000']}
+    for cls, uris in samples.items():
+        for u in uris:
+            got = real_claims(u)
+            if got != 'ok ' + cls:
+                ctx.witness('scheme-claim', 'URI scheme is not claimed by exactly its driver', {'uri': u}, got=got, want='ok ' + cls)
+    unknown = ['foo://bar', 'http://x/', '', 'radio:/0/80', 'Radio://0/80', 'usb:/0', 'debug://0/0', 'bogus', ' radio://0/80', 'usb://x']
+    for trial in range(300 if T else 80):
+        u = rng.choice(unknown) if rng.random() < 0.3 else g_mutate(rng, g_other_scheme(rng))
+        got = real_claims(u)
+        names = [] if got == 'ok -' else got[3:].split(',')
+        if len(names) > 1:
+            ctx.witness('scheme-overlap', 'a URI is claimed by more than one driver', {'uri': u}, got=got)
+        if u in unknown and names:
+            ctx.witness('scheme-unknown', 'an unknown scheme is claimed by a driver', {'uri': u}, got=got)
+    world = dict(serials=['E7E7E7E7E7'], radios=[0, 1], usbs=[0, 1], devices=['ttyUSB0'], other_ok=True)
+    for trial in range(60 if T else 20):
+        cls = list(rng.choice(BASE_LISTS))
+        if rng.random() < 0.5:
+            rng.shuffle(cls)
+        want_cls = rng.choice([c for c in cls])
+        u = rng.choice(samples[want_cls][:2])
+        got = real_driver(cls, Boundary(**world), u)      # 'ok <cls> ...' or, for udp/tcp/prrt, 'took <cls>'
+        if got.split(' ')[1:2] != [want_cls]:
+            ctx.witness('driver-pick', 'get_link_driver does not return the driver of the URI scheme', {'classes': cls, 'uri': u}, got=got, want=want_cls)
+        elif want_cls == 'RadioDriver':
+            want = 'ok RadioDriver ' + show_radio((0, 80, 2, (0xe7,) * 5, None))
+            if got != want:
+                ctx.witness('radio-settings', 'settings applied to the radio differ from what the URI names', {'classes': cls, 'uri': u}, got=got, want=want)
+    # (5) unknown scheme / malformed URI: no driver, one connection_failed, nothing escapes
+    bad = ['foo://bar', '', 'radio:/0/80', 'usb://x', 'radio://0/notanumber', 'radio://0/80/2M/E7E7E7E7E7E7E', 'radio://0/80/2M/E7E7E7E7E7E7', 'radio://0/80/2M/XY', 'radio:///80/2M', 'radio://nosuchserial/80',
+           'radio://0/80?rate_limit=fast', 'radio://[0/80', 'serial://', 'prrt://nonsense', 'radio://0/8 0/2M']
+    for trial in range(len(bad) + (60 if T else 15)):
+        u = bad[trial] if trial < len(bad) else g_malformed(rng, [])
+        if not safe_for_connect(u):
+            continue
+        cls = list(rng.choice(BASE_LISTS))
+        lk = real_driver(cls, Boundary(**world), u, canon=False)
+        res = real_open(cls, Boundary(**world), False, u)
+        body = res[3:].split(' ')[0].split(',')
+        nfail = sum(1 for e in body if e.startswith('failed'))
+        if 'escaped=none' not in res:
+            ctx.witness('open-escape', 'an exception escapes open_link', {'classes': cls, 'uri': u}, got=res[-120:])
+        if (lk == 'none' or lk.startswith('raised')) and (nfail != 1 or 'link=none' not in res):
+            ctx.witness('open-no-failed', 'no driver for the URI but open_link does not report exactly one connection_failed', {'classes': cls, 'uri': u}, got=res[-200:], driver=lk)
+        if nfail > 1 or any(e.startswith('unexpected') or e.startswith('failed-other') for e in body):
+            ctx.witness('open-events', 'open_link fires unexpected notifications', {'classes': cls, 'uri': u}, got=res[-200:])
+        if trial < len(bad) and not (lk == 'none' or lk.startswith('raised')):
+            ctx.witness('malformed-accepted', 'a malformed URI / unknown scheme yields a driver', {'classes': cls, 'uri': u}, got=lk)
+    # (6) uri_helper defaults agree with parse_uri
+    h = real_helper(None)
+    if h.startswith('ok '):
+        u, a = h[3:].split(' ')
+        p = parsed([], dec(u))
+        if not p.startswith('ok ') or p.split(' ')[4] != ','.join(str(b) for b in int(a).to_bytes(5, 'big')):
+            ctx.witness('helper-default', 'uri_helper defaults disagree with parse_uri', {'uri': dec(u), 'address': a}, got=p)
+    else:
+        ctx.witness('helper-default', 'uri_helper fails without CFLIB_URI', {}, got=h)
